@@ -39,7 +39,7 @@ pub fn bounds(tier: Tier) -> Bounds {
 pub fn describe_bounds(tier: Tier) -> String {
     let b = bounds(tier);
     format!(
-        "link sweep: entries {{eth2, sll, ether-type}} x all sequences of <= {} link extensions over {} variants x 12 net/transport suffixes (4 with deviations), <= {} deviation(s) in different layers of the link part (prefixes with more than {} extensions: one less) + all pairs of deviations inside one layer; \
+        "link sweep: entries {{eth2, sll, ether-type}} x all sequences of <= {} link extensions over {} variants x 12 net/transport suffixes (4 with deviations; in the quick tier additionally every sequence of 4 extensions - one more than the crate decodes - x 4 suffixes without deviations), <= {} deviation(s) in different layers of the link part (prefixes with more than {} extensions: one less) + all pairs of deviations inside one layer; \
          net sweep: 6 link prefixes x {{ipv4, ipv4+ah, ipv6 + every extension chain of length <= {} ({} with deviations) over {{hbh,dest,routing,frag,ah}}}} x {} transports, <= {} deviation(s) in different layers of the net/transport part (chains longer than {}: one less) + all in-layer pairs; \
          cross sweep: <= {} deviations anywhere over 30 reduced stackings; noise sweep: all literals of length <= {} over {{00,01,45,60,7f,80,ff}} + 0..64 filler bytes for every door; option sweep: all sequences of <= {} TCP option tokens (24 tokens: well formed, lying length bytes, unknown kinds) and <= {} NDP option tokens (40 tokens) cut at every byte, as raw option area and inside a TCP segment / neighbour solicitation; \
          every packet is closed by trailers {{0,1,5}} behind the innermost length field and by EVERY truncation point (layers > 192 B: boundaries and every 64th byte); every suffix starting at a layer boundary is also a case under the door its parent announces",
@@ -64,6 +64,9 @@ pub fn describe_bounds(tier: Tier) -> String {
 const LINK_CHUNK: usize = 8;
 
 struct Plan {
+    /// prefixes with index >= this one have one extension more than the deviation sweep covers: they are
+    /// enumerated without deviations and with a reduced suffix set (the "one more than the crate decodes" stackings)
+    n_dev_prefixes: usize,
     link_prefixes: Vec<Vec<L>>,
     n_link_units: u64,
     chains0: Vec<Vec<L>>,
@@ -114,7 +117,12 @@ fn cross_stacks() -> Vec<(Door, Vec<L>)> {
 
 fn plan(tier: Tier) -> Plan {
     let b = bounds(tier);
-    let link_prefixes = link_prefixes(b.link_exts, b.level);
+    let mut link_prefixes = link_prefixes(b.link_exts, b.level);
+    let n_dev_prefixes = link_prefixes.len();
+    if b.link_exts < 4 {
+        // the crate decodes at most 3 link extensions: every stacking of 4 (the 4th must stay payload)
+        link_prefixes.extend(crate::pkt::gen::link_prefixes(4, b.level).into_iter().filter(|p| p.len() > b.link_exts));
+    }
     let n_link_units = 3 * ((link_prefixes.len() + LINK_CHUNK - 1) / LINK_CHUNK) as u64;
     let chains0 = ext_chains(b.chain0);
     // net units: (prefix, net index) where net index 0 = ipv4, 1 = ipv4+ah, 2.. = ipv6 chain
@@ -123,7 +131,7 @@ fn plan(tier: Tier) -> Plan {
     // cross units: (stack, first deviating layer)
     let n_cross_units = cross.iter().map(|(_, s)| s.len() as u64).sum();
     let n_opt_units = (tcp_opt_tokens().len() + ndp_opt_tokens().len()) as u64;
-    Plan { link_prefixes, n_link_units, chains0, n_net_units, cross_stacks: cross, n_cross_units, n_noise_units: NOISE_DOORS.len() as u64, n_opt_units }
+    Plan { n_dev_prefixes, link_prefixes, n_link_units, chains0, n_net_units, cross_stacks: cross, n_cross_units, n_noise_units: NOISE_DOORS.len() as u64, n_opt_units }
 }
 
 pub fn units(tier: Tier) -> u64 {
@@ -315,11 +323,17 @@ pub fn run_unit(tier: Tier, u: u64, ctx: &mut Ctx, check: CheckFn) {
                 if link.is_empty() && suf.first().map(|l| l.kind == Kind::Opaque).unwrap_or(true) {
                     continue;
                 }
+                if pi >= p.n_dev_prefixes && !matches!(si, 0 | 1 | 2 | 8) {
+                    continue;
+                }
                 let mut stack = link.clone();
                 stack.extend(suf.iter().cloned());
                 emit(ctx, door, &stack, &trailers, Cuts::All, check);
                 if ctx.done() {
                     return;
+                }
+                if pi >= p.n_dev_prefixes {
+                    continue;
                 }
                 // deviations in the link part only (reduced suffix set)
                 if !matches!(si, 0 | 1 | 2 | 9) {
